@@ -26,7 +26,8 @@ ASSUMPTIONS = [
 ]
 
 # spreadsheet cells are read with 11 decimals: U, P and U*P all have at most 11 decimals, so that every lattice value survives the input format
-UNITS = [("0.5", "10"), ("0.3333333", "0.7"), ("0.00000001", "43210.98"), ("123.456", "0.00012345"), ("1", "1"), ("0.123", "3.7"), ("250", "2500.5"), ("0.0007", "0.0003")]
+# (and a double carries 11 exact decimals only below about 3e4: every cell value - amounts, prices, supplied fiat values - stays below that)
+UNITS = [("0.5", "10"), ("0.3333333", "0.7"), ("0.00000001", "4321.098"), ("123.456", "0.00012345"), ("1", "1"), ("0.123", "3.7"), ("2.5", "250.5"), ("0.0007", "0.0003")]
 METHODS = ["fifo", "lifo", "hifo", "lofo"]
 
 
